@@ -22,7 +22,9 @@ type Misuse struct {
 func child() *spec.Message { return spec.M("Child", spec.F("street", "string"), spec.F("city", "string")) }
 
 // Misuses lists every documented rule of property C12.
-func Misuses() []Misuse {
+func Misuses() []Misuse { return misusesFixed() }
+
+var misusesFixed = func() []Misuse {
 	return []Misuse{
 		{Rule: "unwrap_on_non_repeated", JSONRule: true, Unwrap: true, Offenders: []string{"Bad", "val"}, Build: func() ([]*spec.Message, []*spec.Enum) {
 			return []*spec.Message{spec.M("Bad", spec.F("val", "string").Unw())}, nil
@@ -126,6 +128,60 @@ func Misuses() []Misuse {
 			return []*spec.Message{spec.M("Bad", spec.F("val", "string"), spec.F("loose", "string")), spec.M("Out", spec.F("ok", "bool"))},
 				spec.Svc("BadService", "/b", spec.RPC("Del", "Bad", "Out", "DELETE", "/x/{val}"))
 		}},
+	}
+}
+
+func init() {
+	// every value of the enum-valued annotations on a field of the wrong type (the documented rule is about the
+	// field type, whatever the value)
+	base := misusesFixed
+	misusesFixed = func() []Misuse {
+		out := base()
+		tsNames := map[int32]string{spec.TsRFC3339: "RFC3339", spec.TsUnixSec: "UNIX_SECONDS", spec.TsUnixMs: "UNIX_MILLIS", spec.TsDate: "DATE"}
+		for v, n := range tsNames {
+			v := v
+			for _, on := range []string{"string", "int64", "message"} {
+				on := on
+				out = append(out, Misuse{Rule: "timestamp_format_" + n + "_on_" + on, JSONRule: true, Offenders: []string{"Bad", "val"}, Build: func() ([]*spec.Message, []*spec.Enum) {
+					if on == "message" {
+						return []*spec.Message{spec.M("Bad", spec.Msg("val", "Child").TsF(v)), child()}, nil
+					}
+					return []*spec.Message{spec.M("Bad", spec.F("val", on).TsF(v))}, nil
+				}})
+			}
+		}
+		ebNames := map[int32]string{spec.EmptyPreserve: "PRESERVE", spec.EmptyNull: "NULL", spec.EmptyOmit: "OMIT"}
+		for v, n := range ebNames {
+			v := v
+			out = append(out, Misuse{Rule: "empty_behavior_" + n + "_on_string", JSONRule: true, Offenders: []string{"Bad", "val"}, Build: func() ([]*spec.Message, []*spec.Enum) {
+				return []*spec.Message{spec.M("Bad", spec.F("val", "string").Empty(v))}, nil
+			}})
+			out = append(out, Misuse{Rule: "empty_behavior_" + n + "_on_map", JSONRule: true, Offenders: []string{"Bad", "val"}, Build: func() ([]*spec.Message, []*spec.Enum) {
+				return []*spec.Message{spec.M("Bad", spec.Msg("val", "Child").Map().Empty(v)), child()}, nil
+			}})
+		}
+		beNames := map[int32]string{spec.BytesB64: "BASE64", spec.BytesB64Raw: "BASE64_RAW", spec.BytesB64URL: "BASE64URL", spec.BytesB64URLRaw: "BASE64URL_RAW", spec.BytesHex: "HEX"}
+		for v, n := range beNames {
+			v := v
+			for _, on := range []string{"string", "int32"} {
+				on := on
+				out = append(out, Misuse{Rule: "bytes_encoding_" + n + "_on_" + on, JSONRule: true, Offenders: []string{"Bad", "val"}, Build: func() ([]*spec.Message, []*spec.Enum) {
+					return []*spec.Message{spec.M("Bad", spec.F("val", on).BEnc(v))}, nil
+				}})
+			}
+		}
+		out = append(out,
+			Misuse{Rule: "nullable_on_repeated", JSONRule: true, Offenders: []string{"Bad", "val"}, Build: func() ([]*spec.Message, []*spec.Enum) {
+				return []*spec.Message{spec.M("Bad", spec.F("val", "string").Rep().Null())}, nil
+			}},
+			Misuse{Rule: "nullable_on_map", JSONRule: true, Offenders: []string{"Bad", "val"}, Build: func() ([]*spec.Message, []*spec.Enum) {
+				return []*spec.Message{spec.M("Bad", spec.F("val", "string").Map().Null())}, nil
+			}},
+			Misuse{Rule: "unwrap_on_map_with_sibling_nested", JSONRule: true, Unwrap: true, Offenders: []string{"Bad", "m"}, Build: func() ([]*spec.Message, []*spec.Enum) {
+				return []*spec.Message{spec.M("Bad", spec.Msg("m", "Child").Map().Unw(), spec.F("other", "int32")), child()}, nil
+			}},
+		)
+		return out
 	}
 }
 
